@@ -181,6 +181,10 @@ func (p *pki) serverCert(identity, ip string) tls.Certificate {
 		t.NotBefore, t.NotAfter = now.Add(-2*y), now.Add(-y)
 	case "notyet":
 		t.NotBefore, t.NotAfter = now.Add(y), now.Add(2*y)
+	case "expiring": // genuine now, expires 10 s from now
+		t.NotBefore, t.NotAfter = now.Add(-time.Hour), now.Add(10*time.Second)
+	case "fresh": // genuine, issued a moment ago (after any signer that already exists was built)
+		t.NotBefore, t.NotAfter = now.Add(-time.Second), now.Add(y)
 	case "firstname": // a genuine certificate of a configured CA, but naming the FIRST endpoint's address
 		t.IPAddresses = []net.IP{net.ParseIP("127.0.0.1")}
 	case "othername":
